@@ -48,6 +48,8 @@ func schedules(tier string) []schedule {
 		{"lock[10:2000,10:2000]-vest[10:2000,10:2000]", []rm.Period{P(10, 2000), P(10, 2000)}, []rm.Period{P(10, 2000), P(10, 2000)}},
 		{"lock[20:4000]-vest[10:4000]", []rm.Period{P(20, 4000)}, []rm.Period{P(10, 4000)}},
 		{"lock[10:4000]-vest[20:1000,10:3000]", []rm.Period{P(10, 4000)}, []rm.Period{P(20, 1000), P(10, 3000)}},
+		// a window (t in (10,20)) in which some coins are vested but still locked while others are unvested
+		{"lock[20:4000]-vest[10:2000,20:2000]", []rm.Period{P(20, 4000)}, []rm.Period{P(10, 2000), P(20, 2000)}},
 	}
 	if tier == "thorough" {
 		out = append(out, schedule{"lock[10:1000,20:3000]-vest[10:4000]", []rm.Period{P(10, 1000), P(20, 3000)}, []rm.Period{P(10, 4000)}},
